@@ -94,6 +94,7 @@ func init() {
 			{"nil-guard", "Table.Grid dereferences are nil-guarded", ruleNilGuardGrid},
 			{"typed-nil", "readers whose result becomes an interface value never return (nil, nil)", ruleTypedNil},
 			{"untrusted-size", "no allocation on the Open path is sized from archive directory fields", ruleUntrustedSize},
+			{"iter-progress", "iterator loops are left when the advancing call fails without progress", ruleIterProgress},
 		},
 		Assumptions: append([]string{"Decoder.Token returns an error at end of input and consumes input on every successful call"}, commonAssumptions...),
 	}
@@ -216,6 +217,7 @@ func init() {
 			{"part-from-registry", "regenerated notes/numbering parts contain every registry entry (unfiltered range loop over the registry map)", rulePartFromRegistry("Footnotes", "Endnotes", "Numbering")},
 			{"toc-config-flow", "functions given a TOC configuration collect headings with that configuration's level on every path", ruleTOCConfigFlow},
 			{"counter-monotonic", "note and numbering id counters only ever increase", ruleCounterMonotonic("FootnoteManager", "NumberingManager")},
+			{"item-config-flow", "each list item's numbering comes from that item's own configuration on every path", ruleItemConfigFlow},
 		},
 		Assumptions: commonAssumptions,
 	}
